@@ -853,6 +853,14 @@ def finish(report, prog, level, t0, seed, meta):
         'notes': report.notes[:80],
         'exhaustive': bool(meta.get('exhaustive', False)),
     }
+    if prog is not None:
+        norm = {rel: dict(m.normalised, **(
+            {'aligned_by_renaming': sorted(m.renamed)} if m.renamed else {}))
+            for rel, m in sorted(prog.modules.items())
+            if m.normalised or m.renamed}
+        if norm:
+            # behaviour-preserving rewrites applied before the rules ran
+            coverage['normalised'] = norm
     coverage.update(report.extra)
     ev = {
         'property_id': prop,
